@@ -21,7 +21,7 @@
 (***************************************************************************)
 EXTENDS Grammar
 AllKinds == Kinds \cup {"#EOF"}
-RAW == TLCEval([f \in States |-> RawSucc(f)])
+RAW == RawTable
 
 VARIABLES vPos, vPromise, vS, vDead, vAcc
 vars == <<vPos, vPromise, vS, vDead, vAcc>>
@@ -29,13 +29,7 @@ Init == vPos = <<>> /\ vPromise = <<"none", {}>> /\ vS = {<<>>} /\ vDead = FALSE
 SkipSet == {"#Empty", "#Comment", "#TagLine", "#Language"}
 
 \* ---- grammar side
-ExpN == UNION { {e[1] : e \in RAW[p]} : p \in vS }
-ReadN(k0) == LET k == IF k0 = "#Language" /\ k0 \notin ExpN THEN "#Comment" ELSE k0 IN
-             IF k \in ExpN THEN k ELSE IF "#Other" \in ExpN /\ k # "#EOF" THEN "#Other" ELSE k
-StepN(k) == LET r == ReadN(k) IN
-            IF r \in ExpN THEN UNION { {e[2] : e \in {x \in RAW[p] : x[1] = r}} : p \in vS }
-            ELSE IF r \in {"#Comment", "#Empty"} /\ "#Other" \notin ExpN THEN vS    \* ignored tokens may appear wherever free text is not expected
-            ELSE {}
+StepN(k) == NfaStep(vS, k)          \* Grammar!NfaStep: the subset construction, shared with the sentence test used on real documents
 \* ---- parser side
 ExpP == {Table[vPos][j].tok : j \in 1..Len(Table[vPos])}
 ReadP(k) == IF k \in ExpP THEN k ELSE IF k = "#Language" /\ "#Comment" \in ExpP THEN "#Comment"
